@@ -69,7 +69,29 @@ def r2(ctx):
     ctx.ob(fi.qual, "every-call-counted-as-variant", ok, fi.loc(loop), "add_variants(1) is reached for every call of the sample" if ok else "a call can pass the loop without being counted as a variant", cfg.describe_path(probs[0][1]) if probs else None)
     n_het = nodes_with(lambda a: bool(_calls(a, None, "add_heterozygous_variants")))
     n_unph = nodes_with(lambda a: bool(_calls(a, None, "add_unphased")))
-    n_blk = nodes_with(lambda a: any(isinstance(c.func.value, ast.Subscript) and u(c.func.value.value) == "blocks" for c in _calls(a, None, "add")))
+    def block_key(c):
+        """X in `blocks[X].add(..)` -- or in `b.add(..)` where every definition of the local b is blocks[X] / blocks.get(X) /
+        a fresh PhasedBlock stored under blocks[X] (get-or-create)"""
+        r = c.func.value
+        if isinstance(r, ast.Subscript) and u(r.value) == "blocks":
+            return u(r.slice)
+        if isinstance(r, ast.Name):
+            keys = set()
+            for s_, v_ in util.assignments_to(fi.node, r.id):
+                if isinstance(v_, ast.Subscript) and u(v_.value) == "blocks":
+                    keys.add(u(v_.slice))
+                elif isinstance(v_, ast.Call) and u(v_.func) == "blocks.get" and len(v_.args) == 1:
+                    keys.add(u(v_.args[0]))
+                elif isinstance(v_, ast.Call) and u(v_.func) in ("blocks.setdefault",) and v_.args:
+                    keys.add(u(v_.args[0]))
+                elif isinstance(v_, ast.Call) and u(v_.func) == "PhasedBlock" and isinstance(s_, ast.Assign) and any(isinstance(t_, ast.Subscript) and u(t_.value) == "blocks" for t_ in s_.targets):
+                    keys |= {u(t_.slice) for t_ in s_.targets if isinstance(t_, ast.Subscript) and u(t_.value) == "blocks"}
+                else:
+                    return None
+            return keys.pop() if len(keys) == 1 else None
+        return None
+
+    n_blk = nodes_with(lambda a: any(block_key(c) is not None for c in _calls(a, None, "add")))
     ctx.require(n_het and n_unph and n_blk, "heterozygous / unphased / block bucket statements not found in get_phase_blocks")
     bad = None
     for h in n_het:
@@ -94,7 +116,7 @@ def r2(ctx):
                 pre = p
     ctx.ob(fi.qual, "buckets-only-for-het", pre is None, fi.loc(loop), "a call reaches a bucket only after being counted heterozygous" if pre is None else "a call can reach a bucket without being counted heterozygous", cfg.describe_path(pre))
     # the block key is the call's own phase set and the block is told its variant
-    ok = all(any(u(c.func.value.slice) == "phase.block_id" and c.args and u(c.args[0]) == u(loop.target.elts[0]) for c in _calls(cfg.ast(n), None, "add") if isinstance(c.func.value, ast.Subscript)) for n in n_blk)
+    ok = all(any(block_key(c) == "phase.block_id" and c.args and u(c.args[0]) == u(loop.target.elts[0]) for c in _calls(cfg.ast(n), None, "add")) for n in n_blk)
     ctx.ob(fi.qual, "block-keyed-by-phase-set", ok, fi.loc(loop), "the call is added to blocks[phase.block_id] with its own variant" if ok else "block membership is not keyed by the call's own phase.block_id / variant")
 
     # split into phased / singletons
@@ -164,6 +186,14 @@ def r3(ctx):
             combined[n.target.attr] = u(n.value)
         if isinstance(n, ast.Call) and isinstance(n.func, ast.Attribute) and n.func.attr == "extend" and isinstance(n.func.value, ast.Attribute) and u(n.func.value.value) == "self" and n.args:
             combined[n.func.value.attr] = u(n.args[0])
+        # self.add_x(other.x) where the method is `self.x += <its parameter>`
+        if isinstance(n, ast.Call) and isinstance(n.func, ast.Attribute) and u(n.func.value) == "self" and len(n.args) == 1 and not n.keywords:
+            m_ = ctx.prog.functions.get(MOD + ".PhasingStats." + n.func.attr)
+            if m_ is not None:
+                mp_ = util.params_of(m_.node)
+                body_ = [b_ for b_ in m_.node.body if not (isinstance(b_, ast.Expr) and isinstance(b_.value, ast.Constant))]
+                if len(mp_) == 2 and len(body_) == 1 and isinstance(body_[0], ast.AugAssign) and isinstance(body_[0].op, ast.Add) and isinstance(body_[0].target, ast.Attribute) and u(body_[0].target.value) == "self" and u(body_[0].value) == mp_[1]:
+                    combined[body_[0].target.attr] = u(n.args[0])
     for name, init_val in fields:
         ok = combined.get(name) == "%s.%s" % (other, name)
         ctx.ob(iadd.qual, "summed:%s" % name, ok, iadd.loc(), "self.%s is combined with %s.%s" % (name, other, name) if ok else "attribute %s initialised in __init__ is %s in __iadd__" % (name, "combined with %s" % combined[name] if name in combined else "not combined"))
@@ -182,7 +212,17 @@ def r3(ctx):
     loop = loops[0]
     head = cfg.node_of(loop)
     gp = [n for n in cfg.g.nodes if cfg.kind(n) == "stmt" and any(isinstance(c.func, ast.Name) and c.func.id == "get_phase_blocks" for c in ast.walk(cfg.ast(n)) if isinstance(c, ast.Call))]
-    adds = {n for n in cfg.g.nodes if cfg.kind(n) == "stmt" and isinstance(cfg.ast(n), ast.AugAssign) and isinstance(cfg.ast(n).op, ast.Add) and u(cfg.ast(n).target) == "total_stats"}
+    inloop = {id(x) for x in ast.walk(loop)}
+    adds = {n for n in cfg.g.nodes if cfg.kind(n) == "stmt" and isinstance(cfg.ast(n), ast.AugAssign) and isinstance(cfg.ast(n).op, ast.Add) and u(cfg.ast(n).target) == "total_stats" and id(cfg.ast(n)) in inloop}
+    added_value = {n: u(cfg.ast(n).value) for n in adds}
+    # collect-then-sum: the chromosome's object is appended to a list that a later loop adds, element by element, to total_stats
+    for lp_ in [x for x in walk_function(run.node) if isinstance(x, ast.For) and id(x) not in inloop and isinstance(x.iter, ast.Name) and isinstance(x.target, ast.Name)]:
+        if any(isinstance(b_, ast.AugAssign) and isinstance(b_.op, ast.Add) and u(b_.target) == "total_stats" and u(b_.value) == lp_.target.id for b_ in lp_.body) and not util.lexical_loop_exits(lp_):
+            for n in cfg.g.nodes:
+                a_ = cfg.ast(n)
+                if cfg.kind(n) == "stmt" and isinstance(a_, ast.Expr) and isinstance(a_.value, ast.Call) and isinstance(a_.value.func, ast.Attribute) and a_.value.func.attr == "append" and u(a_.value.func.value) == lp_.iter.id and len(a_.value.args) == 1 and id(a_) in inloop:
+                    adds.add(n)
+                    added_value[n] = u(a_.value.args[0])
     blk = {n for n in cfg.g.nodes if cfg.kind(n) == "stmt" and any(c.func.attr == "add_blocks" for c in ast.walk(cfg.ast(n)) if isinstance(c, ast.Call) and isinstance(c.func, ast.Attribute))}
     bad = None
     for g in gp:
@@ -236,7 +276,7 @@ def r3(ctx):
                 params = util.params_of(callee.node)
                 argmap = dict(zip(params, [u(a) for a in c.args]))
                 argmap.update({k.arg: u(k.value) for k in c.keywords})
-                ok = all(u(cfg.ast(a).value) == argmap.get("stats") for a in adds)
+                ok = all(added_value.get(a) == argmap.get("stats") for a in adds)
     ctx.ob(run.qual, "aggregated-object-is-the-filled-one", ok, run.loc(loop), "total_stats += the PhasingStats object that get_phase_blocks filled" if ok else "the object added to total_stats is not the one passed to get_phase_blocks")
 
 
